@@ -745,6 +745,63 @@ RULES = {
 }
 
 
+# ------------------------------------------------------------------ the parsed command line is read-only
+def rule_cli_namespace(repo: Repo) -> List[Ob]:
+    """polar.py parses the command line once and hands the same namespace to every action of every benchmark.
+    An attribute store on it in an action changes what the next benchmark is analysed with."""
+    obs = []
+    n_reads = 0
+    for f in repo.functions:
+        if not (f.relpath.startswith("cli/") or f.relpath == "polar.py"):
+            continue
+        if f.relpath.endswith("argument_parser.py"):
+            continue
+        for n in walk_no_nested(f.node):
+            if isinstance(n, ast.Attribute) and isinstance(n.ctx, ast.Load) and src(n.value) in ("self.cli_args", "cli_args", "args"):
+                n_reads += 1
+            targets = []
+            if isinstance(n, ast.Assign):
+                targets = n.targets
+            elif isinstance(n, (ast.AugAssign, ast.AnnAssign)):
+                targets = [n.target]
+            elif isinstance(n, ast.Call) and isinstance(n.func, ast.Name) and n.func.id == "setattr" and n.args and src(n.args[0]) in ("self.cli_args", "cli_args", "args"):
+                targets = [n.args[0]]
+                obs.append(Ob("G1-cli-namespace", f"{f.relpath}::{f.qualname}::setattr", f.relpath, n.lineno, f.qualname, False,
+                              f"`{src(n)[:60]}` writes the parsed command line, which is shared by all benchmarks of the invocation"))
+                continue
+            for t in targets:
+                for tt in (t.elts if isinstance(t, (ast.Tuple, ast.List)) else [t]):
+                    base = tt.value if isinstance(tt, ast.Subscript) else tt
+                    if isinstance(base, ast.Attribute) and src(base.value) in ("self.cli_args", "cli_args", "args") and f.name != "__init__":
+                        obs.append(Ob("G1-cli-namespace", f"{f.relpath}::{f.qualname}::{base.attr}", f.relpath, n.lineno, f.qualname, False,
+                                      f"`{src(n)[:60]}` writes the parsed command line, which is shared by all benchmarks of the invocation: "
+                                      "the next benchmark is analysed with this benchmark's value"))
+            # in-place mutation of a list option
+            if isinstance(n, ast.Call) and isinstance(n.func, ast.Attribute) and n.func.attr in ("append", "extend", "insert", "remove", "pop", "clear", "sort") \
+                    and isinstance(n.func.value, ast.Attribute) and src(n.func.value.value) in ("self.cli_args", "cli_args", "args"):
+                obs.append(Ob("G1-cli-namespace", f"{f.relpath}::{f.qualname}::{n.func.value.attr}", f.relpath, n.lineno, f.qualname, False,
+                              f"`{src(n)[:60]}` mutates an option list of the shared command line"))
+    if n_reads < 20:
+        raise AnalysisError(f"G1-cli-namespace: only {n_reads} reads of the parsed command line found")
+    if not obs:
+        obs.append(Ob("G1-cli-namespace", "cli::namespace::read-only", "cli/", 0, "", True, f"{n_reads} reads of the parsed command line, no write outside the argument parser"))
+    return obs
+
+
+def mut_cli_namespace(repo: Repo) -> List[Mutant]:
+    def tr(tree):
+        fn = find_def(tree, "GoalsAction.parse_goals")
+        if fn is None:
+            return False
+        fn.body.insert(0, ast.parse("if not self.cli_args.goals:\n    self.cli_args.goals = ['E(' + str(v) + ')' for v in self.program.original_variables]").body[0])
+        return True
+    ov = mutate_module(repo, "cli/actions/goals_action.py", tr)
+    return [Mutant("default-goals-stored-in-namespace", ov, "fire", "GoalsAction.parse_goals::goals", control=True)] if ov else []
+
+
+RULES["CLIARGS"] = Rule("G1-cli-namespace", rule_cli_namespace, 1, "the parsed command line (shared by all benchmarks of one invocation) is never written by an action", mut_cli_namespace)
+
+
 # ------------------------------------------------------------------ memoised mutable results
 _FRESH_WRAPPERS = {"set", "list", "dict", "sorted", "frozenset", "tuple", "copy", "deepcopy"}
 _MUT_METHODS = {"add", "append", "update", "extend", "insert", "remove", "discard", "pop", "clear", "sort", "reverse", "setdefault", "popitem"}
